@@ -100,6 +100,8 @@ func suiteRange(r *Rng, n int, thorough bool, o *Out) {
 		idPerm := r.Perm(len(idPool))
 		var views []string
 		var allVals []map[string]any
+		nameLater := r.chance(1, 3)
+		var naming []func()
 		for i := 0; i < size; i++ {
 			vals := map[string]any{}
 			for _, k := range sortedKeys(typ.Attrs) {
@@ -118,11 +120,27 @@ func suiteRange(r *Rng, n int, thorough bool, o *Out) {
 			} else {
 				res = newSoft(typ)
 			}
-			fill(res, idPool[idPerm[i]], vals)
-			col.Add(res)
+			if _, isWC := col.(*jsonapi.WrapperCollection); isWC && nameLater {
+				// added while it has no ID yet, named once all are in: the collection holds
+				// the wrapper itself, every member counts whatever its ID was when it was added
+				fill(res, "", vals)
+				col.Add(res)
+				id := idPool[idPerm[i]]
+				naming = append(naming, func() { res.Set("id", id) })
+				o.stat("col.wrapper-named-after-add")
+			} else {
+				fill(res, idPool[idPerm[i]], vals)
+				col.Add(res)
+			}
 			allVals = append(allVals, vals)
 		}
+		for _, f := range naming {
+			f()
+		}
 		stale := ""
+		if col.Len() != size {
+			stale = fmt.Sprintf("FAIL:%d resources were added to the collection, it holds %d", size, col.Len())
+		}
 		if sc, isSC := col.(*jsonapi.SoftCollection); isSC && size > 0 && len(typ.Attrs) > 0 && r.chance(1, 3) {
 			// the collection's type is edited in place after its elements were stored and
 			// read: one attribute gives way to another of another name (same field count);
